@@ -473,6 +473,9 @@ class Sc:
             return NotImplemented
         if isinstance(o, _np.ndarray):
             return s._lift(o, lambda a, b: a._cmp(b, op))
+        if isinstance(o, (float, _np.floating)) and math.isinf(float(o)):
+            # every finite real compares with +-inf like 0 does
+            return SymBool(z3.BoolVal(bool(op(0.0, float(o)))))
         o = Sc.of(o)
         if not (s.isreal() and o.isreal()):
             raise Unsupported("ordering comparison of complex terms")
